@@ -51,7 +51,7 @@ func c07(c *q.Ctx) {
 			if strings.Contains(s, "json.(*Encoder).Encode(") { // error propagation of an earlier Encode
 				return true
 			}
-			if g.Sense && s == "(0 < len("+path+"))" { // omit-when-empty of the v1 format
+			if !g.Sense && s == "(0 == len("+path+"))" { // omit-when-empty of the v1 format
 				return true
 			}
 			if path == "p0.XuperSign" || strings.HasPrefix(path, "p0.XuperSign.") {
